@@ -97,7 +97,7 @@ def run_unit(ctx: Ctx, qualname: str) -> None:
         ctx.covers[f"{unit}.entry"] = False
         raise PathEnd("precondition unsatisfiable")
     ctx.covers[f"{unit}.entry"] = True
-    interp.run_ghost(fc.ghost_pre, env, Frame(qualname, mi))
+    interp.run_ghost(fc.ghost_pre, env, Frame(qualname, mi), module=mi)
     old_env = interp.snapshot_env(env)
     if interp.unit_self is not None:
         interp.segment_start = interp.snapshot_env({"self": interp.unit_self})
@@ -148,6 +148,9 @@ def run_unit(ctx: Ctx, qualname: str) -> None:
     ctx.cover(f"{unit}.exit.normal")
     env2 = dict(env)
     env2["result"] = result
+    if not fc.assume_only and "caller" not in " ".join(fc.ghost_post):
+        # ghost updates that describe this function's own effect on its object
+        interp.run_ghost(fc.ghost_post, env2, Frame(qualname, mi), module=mi)
     for cl in fc.ensures:
         v = interp.spec_eval(cl, env2, old_env, mi)
         ctx.prove(f"{unit}.{cl.name}", interp.as_z3_bool(v), cl.text, where_exit, note="postcondition", props=_props(cl, fc))
